@@ -14,6 +14,29 @@ def run(ctx):
     s, _ = ctx.run_vh(["pipe", "--mode", "shutdown", "--runs", 2 if q else 12, "--seed", ctx.seed, "--out", tf], timeout=3400)
     r = ctx.validate("PipeTrace", tf, expect_events=s.get("events"), timeout=3000)
     ctx.add_violations([d for d in r["devs"] if d["tag"].startswith("C06.")], tf)
+    # the same start states with tcell's real device Tty (tty_unix.go) on a pseudo-terminal: a read error is a hang-up
+    tfp = ctx.work + "/trace_pty.ndjson"
+    sp, _ = ctx.run_vh(["pipe", "--mode", "shutdown", "--runs", 1 if q else 6, "--seed", ctx.seed, "--tty", "pty", "--out", tfp],
+                       timeout=3400)
+    if sp.get("skipped"):
+        ctx.assumptions.append("no pseudo-terminal available here (%s): the device-Tty runs were skipped" % sp["skipped"])
+    else:
+        rp = ctx.validate("PipeTrace", tfp, expect_events=sp.get("events"), timeout=3000, subdir="pty")
+        ctx.add_violations([d for d in rp["devs"] if d["tag"].startswith("C06.")], tfp, label="pty")
+    # the device Tty contract by itself: model (DevTty.tla) and its calls on a pseudo-terminal (DevTtyTrace.tla);
+    # a Drain that leaves the reader blocked or a Stop that does not return is what makes Fini/Suspend hang
+    ctx.model("DevTty", timeout=600)
+    tfd = ctx.work + "/trace_devtty.ndjson"
+    sd, _ = ctx.run_vh(["devtty", "--random", 16 if q else 120, "--ops", 30, "--seed", ctx.seed, "--out", tfd], timeout=3400)
+    rd = dict(devs=[], lines=0)
+    if not sd.get("skipped"):
+        rd = ctx.validate("DevTtyTrace", tfd, expect_events=sd.get("events"), timeout=3000, subdir="devtty")
+    ctx.add_violations([d for d in rd["devs"] if d["tag"].startswith("C06.")], tfd, label="devtty")
+    extras = [d for d in rd["devs"] if d["tag"].startswith("EXTRA.")]
+    for d in extras[:10]:
+        vlib.log("  note (not a verdict): %s" % vlib.sig(d))
+    ctx.cov.update(pty_histories=sp["histories"], devtty_histories=sd["histories"], devtty_events=rd["lines"],
+                   extra_monitor_reports=len(extras))
     ctx.cov.update(traces_validated_against_impl=s["histories"], evaluations=s["ops"], distinct_nontrivial=s["distinct"],
                    events_validated=r["lines"])
     ctx.samples.extend(s.get("samples", []))
@@ -25,4 +48,6 @@ def run(ctx):
                rule="M: Pipe.tla, all interleavings of input loop, main loop, poller, poster, resize, read error, Fini/Suspend/"
                     "Resume with ShutdownReturns under fairness; code: start states = eventQ fill {0,5,10} x backed-up chunks "
                     "{0,1,3,12,30} x read error x pending resize (x blocked poller / PostEventWait), each closed by Fini, "
-                    "Suspend, Suspend;Resume;Fini and Fini;Fini, followed by the post-Fini calls")
+                    "Suspend, Suspend;Resume;Fini and Fini;Fini, followed by the post-Fini calls; on the fake Tty and on the real device Tty "
+                    "over a pty; plus the device Tty contract itself (raw mode, input, drain, stop/restore, resize callback) "
+                    "as model and as trace")
